@@ -88,6 +88,8 @@ class UnionProperty(PropertyProtocol):
             return flattened
 
         sub_properties = flatten_union_properties(sub_properties)
+        if not sub_properties:  # e.g. `type: []`, there is no type to generate
+            return PropertyError(detail=f"Union {name} has no members", data=data), schemas
 
         prop = UnionProperty(
             name=name,
